@@ -373,3 +373,50 @@ def C08(run):
 @prop('C09')
 def C09(run):
     count_property(run, dict(rules=ALL, keys=['C09'], proj=proj_C09, quick=5000, thorough=150000))
+
+
+@prop('C05')
+def C05(run):
+    run.level = 'other'
+    count_property(run, dict(rules=ALL, keys=['C05'], proj=proj_C05, quick=6000, thorough=150000, equal_ranks=0.0,
+                             families=['coalitions', 'coalitions', 'majority', 'plain', 'chains', 'on_quota']))
+    run.coverage['explanation'] = ('theorem: the one-seat majority case (lean/Props/C05.lean); the general k-quota claim is explored only: '
+                                   'the compiled Lean predicate okC05 enumerates every candidate subset on the record of every generated election')
+
+
+def retie_line(item):
+    p, o = item
+    return implrun.count_line((p, o))
+
+
+@prop('C07')
+def C07(run):
+    spec = dict(rules=ALL, keys=['EXC', 'C07b', 'C07l', 'C07t'], proj=proj_C07, quick=5000, thorough=150000,
+                families=['plain', 'symmetric', 'symmetric', 'sure_losers', 'on_quota', 'chains', 'few_supported'])
+    count_property(run, spec)
+    # when no tie is logged the record does not depend on the tie-break order (implementation vs implementation)
+    rng = rng_for(run, 'retie')
+    n = budget(run, 2500, 60000)
+    cases = campaign.make_cases(rng, n, ALL, families=spec['families'])
+    lines = common.pmap(implrun.count_line, [(p, o) for _, p, o in cases])
+    notie = [(c, l) for c, l in zip(cases, lines) if isinstance(l, str) and l.startswith('OK ') and ' | tie ' not in l]
+    alt = []
+    for (fam, p, o), l in notie:
+        q = dict(p); t = list(p['tie']); rng.shuffle(t)
+        if t == p['tie']:
+            t = t[::-1]
+        q['tie'] = t
+        alt.append((q, o))
+    lines2 = common.pmap(implrun.count_line, alt)
+    bad = 0
+    for ((fam, p, o), l), (q, _), l2 in zip(notie, alt, lines2):
+        if l != l2:
+            m = findings.meek_collapse_class(p, o)
+            bad += 1
+            if bad <= 3:
+                run.violation(dict(kind='implementation', signatures=['tie-order-independence'], options=o, blt=gen.blt(p),
+                                   blt_other_tie_order=gen.blt(q), first_difference=first_diff(l, l2)))
+    run.coverage['tie_order_independence'] = dict(records_without_tie=len(notie), rerun_with_other_order=len(alt), differing=bad)
+    run.coverage['evaluations'] += len(cases) + len(alt)
+
+import props2
